@@ -1,6 +1,155 @@
-(* C21 — placeholder while building *)
-From Coq Require Import List NArith ZArith Bool.
+(* C21 — interface connection decisions follow the declared policy rules.
+   This file holds the property theorems only: statement, `exact <lemma>`, Print Assumptions.
+   Model: models/Policy.v (interfaces/policy/policy.go, helpers.go, asserts/ifacedecls.go, asserts/constraint.go).
+   Scope of the model: name/attribute regexps are literals; the leaf classification of attribute constraints
+   ($MISSING, $SLOT(), $PLUG(), $*_PUBLISHER_ID) is done by the driver. The theorems below quantify over ALL rule
+   sets, declarations and candidates of the model and do not depend on how a single alternative matches. *)
+From Coq Require Import List NArith ZArith Bool String.
 Import ListNotations.
-Require Import V.lib.Bytes V.models.Policy.
-Theorem C21_tmp : True. Proof. exact I. Qed.
-Print Assumptions C21_tmp.
+Require Import V.lib.Bytes V.models.Policy V.proofs.PolicyProofs.
+Open Scope N_scope.
+
+(* The most specific applicable rule decides: plug snap-declaration, then slot snap-declaration, then the
+   base-declaration plug rule, then its slot rule; with no rule at any level the connection is allowed. *)
+Theorem C21_first_rule_levels : forall ds iface,
+  (forall r, level1 ds iface = Some r -> first_rule ds iface = Some (true, r)) /\
+  (forall r, level1 ds iface = None -> level2 ds iface = Some r -> first_rule ds iface = Some (false, r)) /\
+  (forall r, level1 ds iface = None -> level2 ds iface = None -> level3 ds iface = Some r ->
+             first_rule ds iface = Some (true, r)) /\
+  (forall r, level1 ds iface = None -> level2 ds iface = None -> level3 ds iface = None -> level4 ds iface = Some r ->
+             first_rule ds iface = Some (false, r)) /\
+  (level1 ds iface = None -> level2 ds iface = None -> level3 ds iface = None -> level4 ds iface = None ->
+   first_rule ds iface = None).
+Proof. exact first_rule_levels. Qed.
+Print Assumptions C21_first_rule_levels.
+
+(* ... and everything else in the declarations is ignored: two sets of declarations with the same snap/publisher ids
+   and the same first rule for the plug's interface give the same verdict (connection and auto-connection) *)
+Theorem C21_precedence : forall auto c ds',
+  same_ids (k_decls c) ds' ->
+  first_rule ds' (f_iface (k_plug c)) = first_rule (k_decls c) (f_iface (k_plug c)) ->
+  check_connect auto (with_decls c ds') = check_connect auto c.
+Proof. exact precedence. Qed.
+Print Assumptions C21_precedence.
+
+(* the same as a statement about editing declarations: replace or remove the rules of every level below the deciding
+   one (this is the variant the driver runs on the real code for every case) *)
+Theorem C21_lower_levels_ignored : forall auto c low,
+  check_connect auto (conn_low_variant c low) = check_connect auto c.
+Proof. exact lower_levels_ignored. Qed.
+Print Assumptions C21_lower_levels_ignored.
+
+(* For every candidate whose declarations compile: the connection is allowed exactly when the interfaces agree and
+   either no level has a rule, or in the deciding rule NO deny alternative matches and SOME allow alternative matches
+   (deny wins over allow; an allow match is needed); and the evaluation never dereferences a missing alternative. *)
+Theorem C21_connect_spec : forall auto c, decls_valid (k_decls c) = true ->
+  is_allow (check_connect auto c) = spec_connect_allowed auto c /\ check_connect auto c <> VPanic.
+Proof. exact connect_spec_valid. Qed.
+Print Assumptions C21_connect_spec.
+
+(* deny wins, stated on the rule evaluation itself, for arbitrary lists and an arbitrary matching predicate *)
+Theorem C21_deny_wins : forall (f : alt -> bool) auto deny allow,
+  existsb f deny = true -> eval_conn f auto deny allow = VRefuse.
+Proof. exact eval_conn_deny_wins. Qed.
+Print Assumptions C21_deny_wins.
+
+(* an allowed connection has a matching allow alternative (the first one fixes slots-per-plug) and no matching deny *)
+Theorem C21_allow_needed : forall (f : alt -> bool) auto deny allow any,
+  eval_conn f auto deny allow = VAllow any ->
+  deny <> [] /\ existsb f deny = false /\
+  exists a, In a allow /\ f a = true /\ find f allow = Some a /\ any = arity_any auto a.
+Proof. exact eval_conn_allowed_inv. Qed.
+Print Assumptions C21_allow_needed.
+
+(* rule compilation supplies a default alternative for every missing subrule: all six lists are non-empty *)
+Theorem C21_compiled_nonempty : forall r, rule_valid r = true -> nonempty6 (compile_rule r).
+Proof. exact compile_nonempty. Qed.
+Print Assumptions C21_compiled_nonempty.
+
+(* Monotonicity, on lists: inserting a deny alternative anywhere never turns Refused into Allowed, provided the deny
+   list was not empty ... *)
+Theorem C21_deny_monotone_lists : forall (f : alt -> bool) auto deny1 deny2 allow d, deny1 ++ deny2 <> [] ->
+  is_allow (eval_conn f auto (deny1 ++ d :: deny2) allow) = true ->
+  is_allow (eval_conn f auto (deny1 ++ deny2) allow) = true.
+Proof. exact deny_monotone_lists. Qed.
+Print Assumptions C21_deny_monotone_lists.
+
+(* ... and the guard is needed: an EMPTY deny list refuses everything (the Go loop over no alternatives returns no
+   error, which checkPlugRule/checkSlotRule read as `denied`), so adding a non-matching alternative allows. Compiled
+   rules never have an empty list (C21_compiled_nonempty; the driver asserts it on every real compiled rule). *)
+Theorem C21_empty_deny_refuted : exists (f : alt -> bool) auto deny allow d,
+  is_allow (eval_conn f auto (deny ++ [d]) allow) = true /\ is_allow (eval_conn f auto deny allow) = false.
+Proof. exact empty_deny_refuted. Qed.
+Print Assumptions C21_empty_deny_refuted.
+
+(* Monotonicity, on declarations (the full statement, no guard left): take any candidate whose declarations compile and
+   add a deny alternative (xp to plug rules, xs to slot rules) to the deny-connection / deny-auto-connection subrule of
+   EVERY rule of EVERY declaration; if the connection is allowed afterwards it was allowed before. *)
+Theorem C21_deny_monotone : forall auto c xp xs, decls_valid (k_decls c) = true ->
+  is_allow (check_connect auto (conn_deny_variant auto c xp xs)) = true -> is_allow (check_connect auto c) = true.
+Proof. exact deny_monotone. Qed.
+Print Assumptions C21_deny_monotone.
+
+(* Installation: same deny-over-allow semantics, for every slot and every plug of the snap *)
+Theorem C21_install_spec : forall i, inst_valid i = true -> check_install i = spec_install_allowed i.
+Proof. exact install_spec_valid. Qed.
+Print Assumptions C21_install_spec.
+
+Theorem C21_install_deny_wins : forall (f : alt -> bool) deny allow, existsb f deny = true -> eval_inst f deny allow = false.
+Proof. exact eval_inst_deny_wins. Qed.
+Print Assumptions C21_install_deny_wins.
+
+(* a snap-declaration rule shadows the base-declaration rule for the same interface: changing shadowed base rules
+   changes nothing *)
+Theorem C21_install_precedence : forall i b',
+  (forall iface, match i_decl i with Some d => slot_rule d iface | None => None end = None ->
+                 slot_rule b' iface = slot_rule (i_base i) iface) ->
+  (forall iface, match i_decl i with Some d => plug_rule d iface | None => None end = None ->
+                 plug_rule b' iface = plug_rule (i_base i) iface) ->
+  check_install (inst_with i (i_decl i) b') = check_install i.
+Proof. exact install_precedence. Qed.
+Print Assumptions C21_install_precedence.
+
+Theorem C21_install_deny_monotone_lists : forall (f : alt -> bool) deny1 deny2 allow d, deny1 ++ deny2 <> [] ->
+  eval_inst f (deny1 ++ d :: deny2) allow = true -> eval_inst f (deny1 ++ deny2) allow = true.
+Proof. exact inst_deny_monotone_lists. Qed.
+Print Assumptions C21_install_deny_monotone_lists.
+
+Theorem C21_install_empty_deny_refuted : exists (f : alt -> bool) deny allow d,
+  eval_inst f (deny ++ [d]) allow = true /\ eval_inst f deny allow = false.
+Proof. exact inst_empty_deny_refuted. Qed.
+Print Assumptions C21_install_empty_deny_refuted.
+
+Theorem C21_install_deny_monotone : forall i xp xs, inst_valid i = true ->
+  check_install (inst_deny_variant i xp xs) = true -> check_install i = true.
+Proof. exact install_deny_monotone. Qed.
+Print Assumptions C21_install_deny_monotone.
+
+(* ------------------------------------------------------------------ non-vacuity *)
+Definition ex_env := mkEnv true (bs "ubuntu") false None None.
+Definition ex_plug := mkSide (bs "n1") (bs "ia") (bs "app") [(bs "k1", VStr (bs "x"))] [].
+Definition ex_slot := mkSide (bs "n2") (bs "ia") (bs "os") [(bs "k1", VStr (bs "x"))] [].
+Definition on_classic_alt (b : bool) := mkAlt None None None None [] [] [] [] [] [] None (Some (b, [])) None None.
+Definition attr_alt := mkAlt None None None (Some (MMap [(bs "k1", MEval false (bs "k1"))])) [] [] [] [] [] [] None None None None.
+(* base plug rule: allow when the slot's k1 equals the plug's k1; deny on core systems *)
+Definition ex_rule := RMap (mkRuleMap None None (Some (SOne attr_alt)) (Some (SOne (on_classic_alt false))) None None).
+Definition ex_decls := mkDecls (Some (mkDecl (bs "id1") (bs "pub-one") [] [])) None
+                               (mkDecl [] [] [(bs "ia", ex_rule)] [(bs "ia", RShort false)]).
+Definition ex_conn := mkConn ex_env ex_plug ex_slot ex_decls.
+
+(* the hypotheses of C21_connect_spec / C21_deny_monotone are met by a candidate that is allowed by an attribute
+   match at level 3 while level 4 would refuse ... *)
+Example C21_ex_valid : decls_valid (k_decls ex_conn) = true. Proof. reflexivity. Qed.
+Example C21_ex_allowed : check_connect false ex_conn = VAllow true. Proof. vm_compute. reflexivity. Qed.
+Example C21_ex_level : level1 ex_decls (bs "ia") = None /\ level2 ex_decls (bs "ia") = None /\
+                       exists r, level3 ex_decls (bs "ia") = Some r /\ exists r', level4 ex_decls (bs "ia") = Some r'.
+Proof. repeat split. eexists; split; [reflexivity|]. eexists. reflexivity. Qed.
+(* ... and an added matching deny alternative turns it into a refusal (so the monotone direction is not trivial) *)
+Example C21_ex_deny_added : check_connect false (conn_deny_variant false ex_conn (on_classic_alt true) alt_empty) = VRefuse.
+Proof. vm_compute. reflexivity. Qed.
+(* installation *)
+Definition ex_inst := mkInst ex_env (bs "app") [] [ex_plug] None
+  (mkDecl [] [] [(bs "ia", RMap (mkRuleMap (Some (SOne (on_classic_alt true))) None None None None None))] []).
+Example C21_ex_inst : inst_valid ex_inst = true /\ check_install ex_inst = true /\
+                      check_install (inst_deny_variant ex_inst (on_classic_alt true) alt_empty) = false.
+Proof. repeat split. Qed.
